@@ -324,6 +324,19 @@ func checkCase(c Case) (out evid.Outcome) {
 			order = append(order, fr.Path)
 		}
 	}
+	// a route that is nothing but one placeholder admits its siblings' paths
+	// too: who answers then depends on methods and order, which the flat instance
+	// decides (flatten's own per-route expectation is only used without one)
+	competing := false
+	for _, fr := range flat {
+		last := fr.Path[strings.LastIndex(fr.Path, "/")+1:]
+		if strings.HasPrefix(last, "{c") && strings.HasSuffix(last, "}") {
+			competing = true
+		}
+	}
+	if competing {
+		out.Classes = append(out.Classes, "competing-routes")
+	}
 	expect := map[string][]int{}
 	for _, fr := range flat {
 		expect[fr.M+" "+fr.Path] = fr.IDs
@@ -348,7 +361,7 @@ func checkCase(c Case) (out evid.Outcome) {
 				}
 				// the first probe is an instance of the route: flatten says exactly
 				// which handlers run for which method
-				if inst == probes(path)[0] {
+				if inst == probes(path)[0] && !competing {
 					want, registered := expect[m+" "+path]
 					if registered == pnf {
 						return fail(out, "dispatch", "%s: flat expansion registered=%v but the program's not-found ran=%v; program %s", desc, registered, pnf, js(c))
@@ -452,7 +465,7 @@ var nonGet = []string{"POST", "PUT", "DELETE", "PATCH", "OPTIONS", "CONNECT", "T
 func (g *gstate) routePath(t *rapid.T) string {
 	g.routeN++
 	p := fmt.Sprintf("/r%d", g.routeN)
-	switch rapid.IntRange(0, 8).Draw(t, "rp") {
+	switch rapid.IntRange(0, 9).Draw(t, "rp") {
 	case 0:
 		g.bindN++
 		p += fmt.Sprintf("/{b%d}", g.bindN)
@@ -469,22 +482,46 @@ func (g *gstate) routePath(t *rapid.T) string {
 		p += fmt.Sprintf("/?{b%d}", g.bindN)
 	case 5:
 		p += "/?opt"
+	case 6:
+		p += "/" // a trailing slash is an extra, empty segment
 	}
 	return p
 }
 
-func (g *gstate) nodes(t *rapid.T, depth int, own string) []Node {
+func (g *gstate) nodes(t *rapid.T, depth int, own string, bare bool) []Node {
 	var out []Node
 	n := rapid.IntRange(1, 4).Draw(t, "nnodes")
 	// once per group with a path of its own: the route of the group itself,
 	// declared with the empty path
 	usedEmpty := own == ""
+	usedSlash := own == ""
+	usedCatch := own == "" // (a group with a dynamic or empty path, or the top level: a second one next door would be the same route)
+	// bare: the group path ends in a slash: children are spelled without a leading one
 	routePath := func() string {
 		if !usedEmpty && rapid.IntRange(0, 5).Draw(t, "emptypath") == 0 {
 			usedEmpty = true
 			return ""
 		}
-		return g.routePath(t)
+		if !usedSlash && !bare && rapid.IntRange(0, 7).Draw(t, "slashpath") == 0 {
+			usedSlash = true
+			return "/" // the index route of the group: "<group>/"
+		}
+		if !usedCatch && rapid.IntRange(0, 7).Draw(t, "catchall") == 0 {
+			// a route that admits what its siblings' first segments look like: the
+			// order of declaration and the method decide who answers
+			usedCatch = true
+			g.bindN++
+			p := fmt.Sprintf("/{c%d}", g.bindN)
+			if bare {
+				p = p[1:]
+			}
+			return p
+		}
+		p := g.routePath(t)
+		if bare {
+			p = p[1:]
+		}
+		return p
 	}
 	for i := 0; i < n; i++ {
 		k := rapid.IntRange(0, 11).Draw(t, "nk")
@@ -498,13 +535,27 @@ func (g *gstate) nodes(t *rapid.T, depth int, own string) []Node {
 			} else if gp != "" {
 				g.routeN++
 				gp = fmt.Sprintf("%s%d", gp, g.routeN)
+				if !bare && rapid.IntRange(0, 5).Draw(t, "gslash") == 0 {
+					gp += "/" // "/api3/": the children come without a leading slash
+				}
+			}
+			if bare {
+				if gp == "" {
+					g.routeN++
+					gp = fmt.Sprintf("x%d/", g.routeN)
+				} else {
+					gp = gp[1:]
+					if !strings.HasSuffix(gp, "/") {
+						gp += "/"
+					}
+				}
 			}
 			node := Node{K: "group", Path: gp, H: rapid.IntRange(0, 2).Draw(t, "gh"), Spare: spare}
 			own := gp
-			if strings.HasPrefix(gp, "/{") {
+			if strings.Contains(gp, "{") {
 				own = "" // two such groups side by side would differ in the bind name only
 			}
-			node.Children = g.nodes(t, depth+1, own)
+			node.Children = g.nodes(t, depth+1, own, strings.HasSuffix(gp, "/"))
 			out = append(out, node)
 		case k < 5:
 			out = append(out, Node{K: "method", Path: routePath(), Methods: []string{"GET"}, H: rapid.IntRange(0, 2).Draw(t, "h"), Spare: spare})
@@ -580,7 +631,7 @@ func pickDistinct(t *rapid.T, pool []string, n int) []string {
 func TestProp(t *testing.T) {
 	evid.Rapid(t, "program", 2000, 30000, func(t *rapid.T) {
 		g := &gstate{}
-		c := Case{Program: g.nodes(t, 0, "")}
+		c := Case{Program: g.nodes(t, 0, "", false)}
 		evid.Run(t, "program", c, func() evid.Outcome { return checkCase(c) })
 	})
 }
